@@ -49,3 +49,26 @@ def stages():
     finally:
         aldy.cn.solve_cn_model, aldy.cn.estimate_cn = o_solve, o_cn
         aldy.major.estimate_major, aldy.minor.estimate_minor = o_major, o_minor
+
+
+@contextlib.contextmanager
+def minor_models(rec):
+    """Additionally records the raw results of minor.solve_minor_model (before estimate_minor adds the carry-over)."""
+    import aldy.minor
+
+    o = aldy.minor.solve_minor_model
+    rec["minor_model"] = []
+
+    def solve(gene, coverage, major_sol, alleles_list, mutations, solver, max_solutions=1):
+        res = o(gene, coverage, major_sol, alleles_list, mutations, solver, max_solutions)
+        rec["minor_model"].append({
+            "major": {a.major: n for a, n in major_sol.solution.items()}, "added": list(major_sol.added),
+            "cn": dict(major_sol.cn_solution.solution), "major_score": major_sol.score,
+            "result": [([(a.major, a.minor, list(a.added), list(a.missing)) for a in s.solution], s.score) for s in res]})
+        return res
+
+    aldy.minor.solve_minor_model = solve
+    try:
+        yield rec
+    finally:
+        aldy.minor.solve_minor_model = o
